@@ -1,6 +1,6 @@
 (** C08: lemmas about the species-name parser. *)
 From Coq Require Import List Arith Bool String Ascii ZArith NArith Lia Permutation.
-From Naunet Require Import Lib.ListX Lib.PyStr Lib.Sexp Model.Species.
+From Naunet Require Import Lib.ListX Lib.PyStr Lib.Sexp Model.Species Model.SpeciesSpec.
 Import ListNotations.
 
 (** ** insertion sort keeps the elements *)
@@ -516,9 +516,6 @@ Proof.
 Qed.
 
 (** decidable form of [wf_tables] *)
-Definition no_blankb (t : list ascii) : bool := negb (memb Ascii.eqb " "%char t).
-Definition wf_tablesb (T : tables) (Y : symbols) : bool :=
-  forallb (fun c => no_blankb (unescape (chars c))) (components T Y).
 Lemma memb_In_ascii c l : memb Ascii.eqb c l = true <-> In c l.
 Proof.
   induction l as [|a l IH]; simpl. split; [discriminate | tauto].
